@@ -1343,11 +1343,39 @@ def register(E):
         E.dial_hook = args[0]
     I['@verifSetDialer'] = v_setdialer
 
+    def v_dial_pending(E, args):
+        E.dial_pending = bool(args[0])
+    I['@verifDialPending'] = v_dial_pending
+
+    def dial_wait(E, ctx_done):
+        """a connection attempt that gets no answer while the harness keeps dials pending: it ends when the harness lets
+        it go or, for a dial bound to a context, when that context is done"""
+        if not getattr(E, 'dial_pending', False):
+            return
+        pred = (lambda: not E.dial_pending or ctx_done())
+        if E.in_goroutine():
+            E.sched.block(pred, what='dial (no answer yet)')
+        elif not pred():
+            raise Blocked()
+
+    def dial_timeout(E, args):
+        if getattr(E, 'dial_hook', None) is None:
+            raise Unsupported('net dial without a harness dialer')
+        dial_wait(E, lambda: False)  # bound to its own timeout only, which the model never lets elapse
+        return E.call_value(E.dial_hook, [])
+    I['net.DialTimeout'] = dial_timeout
+    I['net.Dial'] = dial_timeout
+
     def dial_context(E, args):
         if getattr(E, 'dial_hook', None) is None:
             raise Unsupported('net dial without a harness dialer')
         ctx = args[1] if len(args) > 1 else None
         if type(ctx) is Iface and ctx.t == CTX:
+            def done():
+                ctx_expire(E, ctx.v)
+                dd = ctx.v.v[0]
+                return dd is not None and dd.closed
+            dial_wait(E, done)
             ctx_expire(E, ctx.v)
             d = ctx.v.v[0]
             if d is not None and d.closed:
